@@ -674,7 +674,7 @@ def decide(ctx, pid, exe, rows, known, origin):
                   sample=dict(driver="ibtp", origin=origin, blocks=h["blocks"][:4], accepted=acc, rejected=rej, verdict=v))
         ctx.traces_validated += 1
         code, n = v
-        flags = cands[n - 1] if n > 0 else None
+        flags = cands[n - 1] if (code in (0, 2) and 0 < n <= len(cands)) else None
         rep = dict(property=pid, driver="ibtp", history=h, impl=impl, verdict=v, matched_flags=flags)
         if code == 0:
             continue
@@ -757,6 +757,9 @@ def run_check(ctx, pid, gens, n_quick, n_thorough, router_n=0):
         rows = eval_histories(ctx, pid, exe, hs, "g")
         decide(ctx, pid, exe, rows, known, "generated")
         ctx.extra["generated"] = len(hs)
+        post = getattr(ctx, "post_search", None)
+        if post:
+            post(ctx, exe)
     if router_n:
         try:
             from checks import router_common
@@ -789,5 +792,5 @@ def replay_check(ctx, pid, path):
     vs = judge(ctx, pid, [(h, res[0][1])], "replay")
     cands = candidates()
     v = vs[0] if vs else None
-    print(json.dumps(dict(history=h, impl=res[0][1], verdict=v, matched_flags=(cands[v[1] - 1] if v and v[1] > 0 else None))))
+    print(json.dumps(dict(history=h, impl=res[0][1], verdict=v, matched_flags=(cands[v[1] - 1] if v and v[0] in (0, 2) and 0 < v[1] <= len(cands) else None))))
     return 0 if v and v[0] == 0 else 1
